@@ -359,11 +359,90 @@ where
     });
 }
 
+// ------------------------------------------------------------------------------------------------
+// hang monitor: a case that never returns cannot report itself. Every worker publishes (thread id, workload,
+// case, CPU time at case start); a monitor thread reads the workers' CPU time from procfs and, when a single case
+// has consumed more than the limit of *CPU time* (never wall-clock: a loaded machine must not produce verdicts),
+// names the case on stderr and ends the process with status 86. The driver turns that into a finding.
+
+struct HangSlot {
+    tid: AtomicU64,
+    wl: AtomicU64,
+    idx: AtomicU64,
+    start_cpu_ns: AtomicU64,
+    active: AtomicU64,
+}
+
+const HANG_SLOTS: usize = 256;
+static HANG_TABLE: [HangSlot; HANG_SLOTS] = {
+    const S: HangSlot = HangSlot { tid: AtomicU64::new(0), wl: AtomicU64::new(0), idx: AtomicU64::new(0), start_cpu_ns: AtomicU64::new(0), active: AtomicU64::new(0) };
+    [S; HANG_SLOTS]
+};
+static HANG_NEXT: AtomicU64 = AtomicU64::new(0);
+static HANG_LIMIT_S: AtomicU64 = AtomicU64::new(60);
+static HANG_MONITOR: std::sync::Once = std::sync::Once::new();
+
+thread_local! {
+    static HANG_MY_SLOT: std::cell::Cell<Option<usize>> = const { std::cell::Cell::new(None) };
+}
+
+pub fn set_hang_limit_s(s: u64) {
+    HANG_LIMIT_S.store(s.max(1), Ordering::Relaxed);
+}
+
+fn hang_slot() -> Option<&'static HangSlot> {
+    if cfg!(miri) {
+        return None;
+    }
+    HANG_MONITOR.call_once(|| {
+        std::thread::spawn(|| loop {
+            std::thread::sleep(std::time::Duration::from_millis(1500));
+            let limit_ns = HANG_LIMIT_S.load(Ordering::Relaxed) * 1_000_000_000;
+            for s in HANG_TABLE.iter() {
+                if s.active.load(Ordering::Acquire) == 0 {
+                    continue;
+                }
+                let (tid, wl, idx, start) = (s.tid.load(Ordering::Relaxed), s.wl.load(Ordering::Relaxed), s.idx.load(Ordering::Relaxed), s.start_cpu_ns.load(Ordering::Relaxed));
+                if let Some(now) = crate::util::cpu::cpu_ns_of_tid(tid) {
+                    // re-check that the slot still describes the same case
+                    if s.active.load(Ordering::Acquire) != 0 && s.idx.load(Ordering::Relaxed) == idx && s.wl.load(Ordering::Relaxed) == wl && now.saturating_sub(start) > limit_ns {
+                        eprintln!("TZMON-HANG workload={} case={} cpu_s={} limit_s={}", wl, idx, now.saturating_sub(start) / 1_000_000_000, limit_ns / 1_000_000_000);
+                        std::process::exit(86);
+                    }
+                }
+            }
+        });
+    });
+    let k = HANG_MY_SLOT.with(|c| {
+        if c.get().is_none() {
+            let k = HANG_NEXT.fetch_add(1, Ordering::Relaxed) as usize;
+            if k < HANG_SLOTS {
+                HANG_TABLE[k].tid.store(crate::util::cpu::gettid(), Ordering::Relaxed);
+                c.set(Some(k));
+            } else {
+                c.set(Some(usize::MAX));
+            }
+        }
+        c.get()
+    })?;
+    HANG_TABLE.get(k)
+}
+
 fn run_one<F>(l: &mut Local, rng: &mut Rng, i: u64, f: &F)
 where
     F: Fn(&mut Local, &mut Rng, u64) + Sync,
 {
+    let slot = hang_slot();
+    if let Some(s) = slot {
+        s.wl.store(l.cur_workload, Ordering::Relaxed);
+        s.idx.store(i, Ordering::Relaxed);
+        s.start_cpu_ns.store(crate::util::cpu::thread_cpu_ns(), Ordering::Relaxed);
+        s.active.store(1, Ordering::Release);
+    }
     let r = catch_unwind(AssertUnwindSafe(|| f(l, rng, i)));
+    if let Some(s) = slot {
+        s.active.store(0, Ordering::Release);
+    }
     if r.is_err() {
         let msg = take_panic_msg();
         // location of the panic: harness sources are compiled from relative paths ("src/..."), tz-rs (a path
